@@ -101,38 +101,37 @@ pub trait BW6Config: 'static + Eq + Sized {
             })
             .unzip::<_, _, Vec<_>, Vec<_>>();
 
-        // compute f_u which we can later re-use for the 2nd loop
-        let mut f_u = cfg_chunks_mut!(pairs_1, 4)
+        // compute f_u PER CHUNK; every chunk re-uses its own f_u in the 2nd loop
+        let f_u_chunks = cfg_chunks_mut!(pairs_1, 4)
             .map(|pairs| {
-                let mut f = <BW6<Self> as Pairing>::TargetField::one();
+                let mut f_u = <BW6<Self> as Pairing>::TargetField::one();
                 for i in BitIteratorBE::without_leading_zeros(Self::ATE_LOOP_COUNT_1).skip(1) {
-                    f.square_in_place();
+                    f_u.square_in_place();
                     for (p, coeffs) in pairs.iter_mut() {
-                        BW6::<Self>::ell(&mut f, &coeffs.next().unwrap(), &p.0);
+                        BW6::<Self>::ell(&mut f_u, &coeffs.next().unwrap(), &p.0);
                     }
                     if i {
                         for (p, coeffs) in pairs.iter_mut() {
-                            BW6::<Self>::ell(&mut f, &coeffs.next().unwrap(), &p.0);
+                            BW6::<Self>::ell(&mut f_u, &coeffs.next().unwrap(), &p.0);
                         }
                     }
                 }
-                f
+                let f_u_inv;
+                if Self::ATE_LOOP_COUNT_1_IS_NEGATIVE {
+                    f_u_inv = f_u;
+                    f_u.cyclotomic_inverse_in_place();
+                } else {
+                    f_u_inv = f_u.cyclotomic_inverse().unwrap();
+                }
+                (f_u, f_u_inv)
             })
-            .product::<<BW6<Self> as Pairing>::TargetField>();
-
-        let f_u_inv;
-
-        if Self::ATE_LOOP_COUNT_1_IS_NEGATIVE {
-            f_u_inv = f_u;
-            f_u.cyclotomic_inverse_in_place();
-        } else {
-            f_u_inv = f_u.cyclotomic_inverse().unwrap();
-        }
+            .collect::<Vec<_>>();
 
         // f_1(P) = f_(u+1)(P) = f_u(P) * l([u]q, q)(P)
         let mut f_1 = cfg_chunks_mut!(pairs_1, 4)
-            .map(|pairs| {
-                pairs.iter_mut().fold(f_u, |mut f, (p, coeffs)| {
+            .zip(ark_std::cfg_iter!(f_u_chunks))
+            .map(|(pairs, (f_u, _))| {
+                pairs.iter_mut().fold(*f_u, |mut f, (p, coeffs)| {
                     BW6::<Self>::ell(&mut f, &coeffs.next().unwrap(), &p.0);
                     f
                 })
@@ -140,8 +139,9 @@ pub trait BW6Config: 'static + Eq + Sized {
             .product::<<BW6<Self> as Pairing>::TargetField>();
 
         let mut f_2 = cfg_chunks_mut!(pairs_2, 4)
-            .map(|pairs| {
-                let mut f = f_u;
+            .zip(ark_std::cfg_iter!(f_u_chunks))
+            .map(|(pairs, (f_u, f_u_inv))| {
+                let mut f = *f_u;
                 for i in (1..Self::ATE_LOOP_COUNT_2.len()).rev() {
                     f.square_in_place();
 
@@ -151,9 +151,9 @@ pub trait BW6Config: 'static + Eq + Sized {
 
                     let bit = Self::ATE_LOOP_COUNT_2[i - 1];
                     if bit == 1 {
-                        f *= &f_u;
+                        f *= f_u;
                     } else if bit == -1 {
-                        f *= &f_u_inv;
+                        f *= f_u_inv;
                     } else {
                         continue;
                     }
